@@ -24,7 +24,7 @@ PROPS = {
                 claim='the specified links of the chain: decoding of characters/escapes/hex and ranges (unsigned, inclusive), the automaton run loop (longest prefix, slot-0 winner, stops only at end or missing transition), expr::match = whole-string recognition of term 0 without forming a pointer from the failure sentinel',
                 assumptions=['language equality over unbounded strings is not expressible as a contract; the composition operators (cat/alt/star/plus/opt/rep by in-place merging) are not verified and are unsound (finding D9)',
                              'well-formedness of the library-built automata (every transition none or < size) rests on the builder, not verified: [L-wf]', 'string_view_to_subset and the dfa_builder primitives are not under contract']),
-    'C05': dict(units=['state_analyzer', 'terms'],
+    'C05': dict(units=['state_analyzer', 'terms', 'rules'],
                 claim="solve_conflict decides reduce iff rule precedence > term precedence or equal with the rule left-associative (from the statement); the rule's last term is its right-most terminal; rule precedence = explicit [n] if non-zero else the last term's else 0; rule associativity = the last term's",
                 assumptions=['conflict detection inside transitions() (which entry gets the verdict, has_sr_conflict) is not under contract', L_KNUTH, GLUE]),
     'C07': dict(units=['dfa', 'driver', 'buffers'], static=[SF.buffers_static],
@@ -38,7 +38,7 @@ PROPS = {
                 claim='dfa_size_analyzer arithmetic (prim/add/rep: {0} keeps the slice, {n} adds n-1 copies) under an explicit no-wrap precondition; cvector preconditions (size < N) as call-site obligations; stack/capacity of the driver; add_situation capacity preconditions',
                 assumptions=['analyser vs builder lock-step over the same parse is not mechanised; the builder (rep/cat/alt/...) is not under contract', 'sufficiency of the default table caps is a counting (pigeonhole) argument, not mechanised',
                              'nothing in the header establishes the no-wrap precondition of dfa_size_analyzer::rep (finding D12)']),
-    'C02': dict(units=['driver', 'stdex', 'dfa', 'terms'],
+    'C02': dict(units=['driver', 'stdex', 'dfa', 'terms', 'rules'],
                 claim='driver-level half of bottom-up evaluation: which rule functor is invoked, with which stack slice, in which order, once; shift applies the term functor of the shifted term to the pending lexeme; success returns the bottom value',
                 assumptions=[L_PATH, L_IDS, TABLE_WF, R13, 'that the popped slice is the handle of the unique derivation is the LR(1) theorem (C01), not mechanised']),
     'C04': dict(units=['driver', 'utils', 'dfa', 'buffers', 'terms'], static=[SF.buffers_static],
